@@ -244,6 +244,7 @@ DonationOf(P, env) ==
                  ELSE IF IsZero(v.num) THEN Err("zero donation")
                  ELSE [k |-> "some", n |-> v.num]
 
+KnownNativeScript(bs) == bs \in {<<130, 1, 129, 130, 4, 0>>, <<130, 1, 128>>}
 \* a script carried in the witness set: (language, bytes); language 0 is a native script
 WitnessOf(b, P, env) ==
     LET scr == D(b.script, "plain", P, env)
@@ -252,6 +253,7 @@ WitnessOf(b, P, env) ==
         \* the code leaves out a witness block whose fields have another shape; the property does not cover that
         ELSE IF ver.k # "number" \/ scr.k # "bytes" THEN Unspec
         ELSE IF b.k = "plutus_witness" /\ ~(FitsInt(ver.num) /\ ToInt(ver.num) \in {1, 2, 3}) THEN Unspec
+        ELSE IF b.k = "native_witness" /\ ~KnownNativeScript(scr.v) THEN Unspec
         ELSE [k |-> "script", lang |-> ToInt(ver.num), v |-> scr.v]
 
 \* the stake credential an address delegates to: [kind 0 key | 1 script, hash]
@@ -282,6 +284,8 @@ PublishOf(b, P, env) ==
         ELSE IF ~hasRef THEN [o EXCEPT !.script_ref = [k |-> "none"]]
         ELSE IF ver.k # "number" THEN Err("script version") ELSE IF scr.k # "bytes" THEN Err("script bytes")
         ELSE IF ~(FitsInt(ver.num) /\ ToInt(ver.num) \in {0, 1, 2, 3}) THEN Err("script version")
+        \* whether bytes decode as a native script is not modelled: the scripts the generators use do, any other is left open
+        ELSE IF ToInt(ver.num) = 0 /\ ~KnownNativeScript(scr.v) THEN Unspec
         ELSE [o EXCEPT !.script_ref = [k |-> "some", lang |-> ToInt(ver.num), v |-> scr.v]]
 
 DenoteTx(P, env) ==
